@@ -6,6 +6,7 @@ mod classes;
 mod dot;
 mod dump;
 mod exec;
+mod large;
 mod model;
 mod parse;
 mod record;
@@ -34,6 +35,7 @@ fn main() {
         "serde" => serde_check::main(&args[2..]),
         "classes" => classes::main(&args[2..]),
         "threads" => threads::main(&args[2..]),
+        "large" => large::main(&args[2..]),
         other => {
             eprintln!("unknown sub-command {other}");
             2
